@@ -188,10 +188,28 @@ func TestVerif(t *testing.T){
    res[i]=p.Bytes() }(i) }
  close(start); wg.Wait()
  for i:=1;i<8;i++{ if !bytes.Equal(res[i],res[0]) {t.Fatalf("goroutine %d differs",i)} }
+}
+// a second cold-start scenario is in TestVerifAlias (run in its own process): receivers aliased to the point argument
+func TestVerifAlias(t *testing.T){
+ k,_:=NewScalar().SetCanonicalBytes([]byte{7,0,0,0,0,0,0,0,0,0,0,0,0,0,0,0,0,0,0,0,0,0,0,0,0,0,0,0,0,0,0,0})
+ base:=new(Point).Add(NewGeneratorPoint(),NewGeneratorPoint())
+ var wg sync.WaitGroup; start:=make(chan struct{}); res:=make([][]byte,8)
+ for i:=0;i<8;i++{ wg.Add(1); go func(i int){ defer wg.Done(); p:=new(Point).Set(base); <-start
+   switch i%3 { case 0: p.VarTimeDoubleScalarBaseMult(k,p,k); case 1: p.VarTimeMultiScalarMult([]*Scalar{k,k},[]*Point{p,NewGeneratorPoint()}); default: p.MultiScalarMult([]*Scalar{k,k},[]*Point{p,NewGeneratorPoint()}) }
+   res[i]=p.Bytes() }(i) }
+ close(start); wg.Wait()
+ want:=new(Point).Add(new(Point).ScalarMult(k,base),new(Point).ScalarBaseMult(k)).Bytes()
+ for i:=0;i<8;i++{ if !bytes.Equal(res[i],want) {t.Fatalf("goroutine %d (receiver aliased to its point argument, simultaneous first use): wrong result",i)} }
 }'''
     rc, out = native.go_test(code, race=True, timeout=900)
     if rc != 0:
         return dict(what="cold-start concurrent test under -race failed: " + out[-600:], op="race")
+    # second cold process (fresh tables), without the detector so that the goroutines really overlap; repeated, because the
+    # window is the table construction
+    for rep in range(4):
+        rc, out = native.go_test(code, run="TestVerifAlias", race=(rep == 3), timeout=900)
+        if rc != 0:
+            return dict(what="cold-start concurrent test (receivers aliased to arguments) failed: " + out[-600:], op="race")
     return None
 
 
